@@ -60,7 +60,12 @@ Definition sph_new (ptype apid scount dlen shf sflags ver : Z) : res sph :=
   Ok {| ver := ver; ptype := pid_ptype p; shf := pid_shf p; apid := pid_apid p;
         sflags := psc_flags s; scount := psc_count s; dlen := dlen |}.
 
+(* SpacePacketHeader.pack(): the three range checks (APID, sequence count, data length -- the
+   setters do not validate, so pack() refuses what they let in), then three struct.pack("!H") *)
 Definition sph_pack (h : sph) : res bytes :=
+  if (apid h >? MAX_APID) || (apid h <? 0) then Err EValue else
+  if (scount h >? MAX_SEQ_COUNT) || (scount h <? 0) then Err EValue else
+  if (dlen h >? 65535) || (dlen h <? 0) then Err EValue else
   do w0 <- struct_pack 2 (Z.lor (Z.shiftl (ver h) 13) (pid_raw (sph_pid h)));
   do w1 <- struct_pack 2 (psc_raw (sph_psc h));
   do w2 <- struct_pack 2 (dlen h);
@@ -119,7 +124,7 @@ Definition space_packet_pack (h : sph) (sec_header user_data : option bytes) : r
   match user_data with None => Ok p1 | Some u => Ok (p1 ++ u) end.
 
 (* ---- operation histories over a header object (every public setter; none of them
-   validates its argument).  `h.apid = v` and `h.packet_id.apid = v` (and likewise the other
+   validates its argument: pack() does).  `h.apid = v` and `h.packet_id.apid = v` (and likewise the other
    sub-object routes through the public packet_id / packet_seq_control attributes) are the
    same assignment in the code, hence the same operation here.  data_len is a plain
    attribute. ---- *)
